@@ -35,6 +35,9 @@ theorem kv_roundtrip (k v rest : Bytes) (hk : k.length < 2 ^ 63) :
 theorem dbhdr_roundtrip_over (old : Bytes) (d : DbHdr) (hold : old.length = Gen.DOFF_END) (h : WfDbHdr d) :
     decDbHdr (encDbHdrOver old d) = some d := dbhdr_dec_enc_over old d hold h
 
+/-- the field widths of the allocator header add up to the generated header size -/
+theorem fsm_layout_total : FOFF_END = Gen.IWFSM_CUSTOM_HDR_DATA_OFFSET := FormatEnc.fsm_layout_total
+
 /-- **Allocator header round trip** (`_fsm_write_meta_lw` / `_fsm_read_meta_lr`). -/
 theorem fsmhdr_roundtrip (f : FsmHdr) (h : WfFsmHdr f) : decFsmHdr (encFsmHdr f) = some f := by
   have hz : (zeros Gen.IWFSM_CUSTOM_HDR_DATA_OFFSET).length = Gen.IWFSM_CUSTOM_HDR_DATA_OFFSET := by simp [zeros]
